@@ -1,29 +1,62 @@
 #!/venv/bin/python
 """Package a confirmed seeded change into /verif/seeded/<name>/ (patch.diff, demo.py, meta.json).
-usage: keep_mutant.py <src dir> <name> <PROP>"""
+usage: keep_mutant.py <src dir> <name> <PROP> [note]
+
+Result sources (developer scratch, not needed by any registered command):
+  /tmp/mutres/agg.json            every mutant.sh run so far, merged per check (history, incl. early misses)
+  /tmp/mutres/<name>.json         the latest mutant.sh run
+  /tmp/mutres/final/<name>.json   the final sweep against the final quick checks
+  /tmp/mutres/<name>.suite.json   tools/mutant_suite.sh
+"""
 import json, os, shutil, sys
+
 src, name, prop = sys.argv[1:4]
-dst = f"/verif/seeded/{name}"
+note = sys.argv[4] if len(sys.argv) > 4 else ""
+HERE = os.path.dirname(os.path.dirname(os.path.abspath(__file__)))
+dst = os.path.join(HERE, "seeded", name)
 os.makedirs(dst, exist_ok=True)
-reb = f"/tmp/mutres/{name}.rebased.diff"
-shutil.copy(reb if os.path.exists(reb) and os.path.getsize(reb) else os.path.join(src, "patch.diff"), os.path.join(dst, "patch.diff"))
+shutil.copy(os.path.join(src, "patch.diff"), os.path.join(dst, "patch.diff"))
+if os.path.exists(os.path.join(src, "patch.orig.diff")):
+    # the sub-agent's patch no longer applied after later fix: commits; patch.diff is the same change rebased onto HEAD
+    shutil.copy(os.path.join(src, "patch.orig.diff"), os.path.join(dst, "patch.as-written.diff"))
 shutil.copy(os.path.join(src, "demo.py"), os.path.join(dst, "demo.py"))
 meta = json.load(open(os.path.join(src, "meta.json")))
-res = {}
-for suffix in ("", "b"):
-    p = f"/tmp/mutres/{name}{suffix}.json"
-    if os.path.exists(p):
-        r = json.load(open(p))
-        res.update(r.get("checks", {}))
+for k in ("commands_run",):
+    if k in meta:
+        meta["sub_agent_" + k] = meta.pop(k)
+
+
+def load(p):
+    try:
+        return json.load(open(p))
+    except Exception:
+        return None
+
+
+agg = (load("/tmp/mutres/agg.json") or {}).get(name, {})
+latest = load(f"/tmp/mutres/{name}.json") or {}
+final = load(f"/tmp/mutres/final/{name}.json") or {}
+hist = dict(agg.get("checks", {}))
+now = dict(hist)
+now.update(latest.get("checks", {}))
+now.update(final.get("checks", {}))
+for r in (agg, latest):
+    if r.get("demo_with_change") is not None:
         meta["demo_with_change_exit"] = r.get("demo_with_change")
         meta["demo_on_clean_head_exit"] = r.get("demo_clean")
-sp = f"/tmp/mutres/{name}.suite.json"
-if os.path.exists(sp):
-    s = json.load(open(sp))
+s = load(f"/tmp/mutres/{name}.suite.json")
+if s:
     meta["suite_confirmed_here"] = {"exit": s["suite_rc"], "summary": s["summary"]}
 meta["property"] = prop
-meta["checks_run"] = {k: ("caught (exit 1, VIOLATION)" if v == 1 else ("missed (exit 0)" if v == 0 else f"exit {v}")) for k, v in res.items()}
+word = {1: "caught (exit 1, VIOLATION)", 0: "missed (exit 0)"}
+meta["checks_run"] = {k: word.get(v, f"exit {v}") for k, v in sorted(now.items())}
+meta["checks_run_source"] = "final sweep" if final else "latest run"
+first_missed = sorted(k for k, v in agg.get("first_checks", hist).items() if v == 0 and now.get(k) == 1)
+if first_missed:
+    meta["missed_before_strengthening"] = first_missed
+if note:
+    meta["note"] = note
 meta["confirmed_with"] = ["tools/mutant.sh (scratch worktree of /repo HEAD + patch; demo with change / on clean HEAD; quick checks with VERIF_REPO=<worktree>)",
                           "tools/mutant_suite.sh (tools/baseline.py --repo <worktree>: stable suite of BASELINE.json)"]
 json.dump(meta, open(os.path.join(dst, "meta.json"), "w"), indent=1)
-print(name, meta["checks_run"], meta.get("suite_confirmed_here"))
+print(name, meta["checks_run"], meta.get("suite_confirmed_here"), meta.get("missed_before_strengthening"))
